@@ -263,6 +263,13 @@ func (x *Exec) callByContract(st *State, ins ssa.Instruction, full string, fc *F
 	for _, ms := range fc.ModSrc {
 		x.havocTarget(st, env, ms, ins, label, true)
 	}
+	for _, cn := range fc.CallsDecl {
+		key := x.callKey(st, cn)
+		c := x.callCount(st, key)
+		nc := x.D.Fresh("nc."+cn, SInt)
+		st.Assume(fmt.Sprintf("(>= %s %s)", nc, c))
+		st.Calls[key] = nc
+	}
 	if fc.Logged {
 		c := x.callCount(st, lastName(short))
 		st.Calls[lastName(short)] = simplifyPlus1(c)
@@ -575,6 +582,9 @@ func (x *Exec) checkPost(st *State, ins *ssa.Return, results []Value) {
 	for n, v := range x.params {
 		env.vars[n] = v
 	}
+	for i, p := range x.Fn.Params {
+		env.vars[fmt.Sprintf("arg%d", i)] = x.params[p.Name()]
+	}
 	bindResults(env, x.Fn.Signature, res)
 	x.anchors(st, "at return#"+x.retLabel(ins), env)
 	for ci, c := range x.FC.Ensures {
@@ -584,6 +594,18 @@ func (x *Exec) checkPost(st *State, ins *ssa.Return, results []Value) {
 			lab = fmt.Sprintf("%d", ci)
 		}
 		x.emit(st, "post", lab, g, c.Src)
+	}
+	// call frame: logged callees not declared in `calls` must not have been called
+	for _, k := range sortedKeys(st.Calls) {
+		declared := false
+		for _, cn := range x.FC.CallsDecl {
+			if cn == k || strings.HasSuffix(k, "."+cn) {
+				declared = true
+			}
+		}
+		if !declared && st.Calls[k] != "0" {
+			x.emit(st, "calls", k, Eq(st.Calls[k], "0"), "logged callee "+k+" is not declared in the contract's calls clause")
+		}
 	}
 	// join-before-return: nothing lent
 	if l, ok := st.Ghost["lent"]; ok && l != "0" {
@@ -753,10 +775,10 @@ func (x *Exec) builtin(st *State, ins ssa.Instruction, b *ssa.Builtin, call *ssa
 		// havoc destination elements
 		dst := args[0]
 		if sl, ok := types.Unalias(dst.Typ).Underlying().(*types.Slice); ok {
-			es := x.TM.Sort(sl.Elem())
+			es := x.TM.Key(sl.Elem())
 			name := x.TM.ElemArray(es)
 			arr := x.elemArr(st, es)
-			st.Heap[name] = Store(arr, app("sbase", dst.Term), x.D.Fresh("copy", fmt.Sprintf("(Array Int %s)", es)))
+			st.Heap[name] = Store(arr, app("sbase", dst.Term), x.D.Fresh("copy", fmt.Sprintf("(Array Int %s)", ksort(es))))
 		}
 		cont(st, x.mk(x.D.Fresh("copyn", SInt), types.Typ[types.Int]))
 	case "ssa:wrapnilchk":
@@ -797,12 +819,12 @@ func (x *Exec) doRecover(st *State) Value {
 func (x *Exec) appendOp(st *State, ins ssa.Instruction, s, e Value, call *ssa.CallCommon) Value {
 	slT := types.Unalias(s.Typ).Underlying().(*types.Slice)
 	et := slT.Elem()
-	es := x.TM.Sort(et)
+	es := x.TM.Key(et)
 	if e.Sort == SStr {
 		// append([]byte, string...)
 		r := x.alloc(st)
 		name := x.TM.ElemArray(es)
-		st.Heap[name] = Store(x.elemArr(st, es), r, x.D.Fresh("app", fmt.Sprintf("(Array Int %s)", es)))
+		st.Heap[name] = Store(x.elemArr(st, es), r, x.D.Fresh("app", fmt.Sprintf("(Array Int %s)", ksort(es))))
 		n := app("+", app("slen", s.Term), app("strlen", e.Term))
 		return x.mk(fmt.Sprintf("(mk_slice %s %s %s)", r, n, n), s.Typ)
 	}
@@ -813,7 +835,7 @@ func (x *Exec) appendOp(st *State, ins ssa.Instruction, s, e Value, call *ssa.Ca
 	name := x.TM.ElemArray(es)
 	r := x.alloc(st)
 	oldInner := Select(arr, app("sbase", s.Term))
-	newInner := x.D.Fresh("app", fmt.Sprintf("(Array Int %s)", es))
+	newInner := x.D.Fresh("app", fmt.Sprintf("(Array Int %s)", ksort(es)))
 	ls := x.lenOf(st, s, false, nil)
 	le := x.lenOf(st, e, false, nil)
 	// prefix copy
@@ -877,8 +899,8 @@ func (x *Exec) modTargets(env *Env, ms string) []modTarget {
 		if !ok {
 			env.errf("modifies x[*] needs a slice")
 		}
-		es := x.TM.Sort(sl.Elem())
-		return []modTarget{{kind: "elems", ref: app("sbase", v.Term), arr: x.TM.ElemArray(es), desc: ms, vsort: fmt.Sprintf("(Array Int %s)", es)}}
+		es := x.TM.Key(sl.Elem())
+		return []modTarget{{kind: "elems", ref: app("sbase", v.Term), arr: x.TM.ElemArray(es), desc: ms, vsort: fmt.Sprintf("(Array Int %s)", ksort(es))}}
 	case strings.HasSuffix(ms, "{}"):
 		e, err := ParseExpr(strings.TrimSuffix(ms, "{}"))
 		if err != nil {
@@ -906,7 +928,7 @@ func (x *Exec) modTargets(env *Env, ms string) []modTarget {
 			}
 			return ts
 		}
-		return []modTarget{{kind: "cell", ref: ref, arr: x.TM.CellArray(x.TM.Sort(pt.Elem())), desc: ms, vsort: x.TM.Sort(pt.Elem())}}
+		return []modTarget{{kind: "cell", ref: ref, arr: x.TM.CellArray(x.TM.Key(pt.Elem())), desc: ms, vsort: x.TM.Sort(pt.Elem())}}
 	default:
 		e, err := ParseExpr(ms)
 		if err != nil {
@@ -982,9 +1004,9 @@ func (x *Exec) checkWrite(st *State, p *Pointer, ins ssa.Instruction) {
 				arrs = append(arrs, n)
 			}
 		} else if a, ok := types.Unalias(p.Elem).Underlying().(*types.Array); ok {
-			arrs = append(arrs, x.TM.ElemArray(x.TM.Sort(a.Elem())))
+			arrs = append(arrs, x.TM.ElemArray(x.TM.Key(a.Elem())))
 		} else {
-			arrs = append(arrs, x.TM.CellArray(x.TM.Sort(p.Elem)))
+			arrs = append(arrs, x.TM.CellArray(x.TM.Key(p.Elem)))
 		}
 	} else if p.Steps[0].IsIndex {
 		arrs = append(arrs, x.TM.ElemArray(p.ElemBaseSort))
@@ -1179,7 +1201,7 @@ func (x *Exec) genericCall(st *State, ins ssa.Instruction, full string, fn *ssa.
 		if x.exploded(sl.Elem()) {
 			return x.loadObject(st, x.elemRef(app("sbase", s.Term), idx), sl.Elem())
 		}
-		es := x.TM.Sort(sl.Elem())
+		es := x.TM.Key(sl.Elem())
 		return x.mk(Select(Select(x.elemArr(st, es), app("sbase", s.Term)), idx), sl.Elem())
 	}
 	// evaluate the predicate closure once on the element at a fresh constant index
@@ -1212,7 +1234,7 @@ func (x *Exec) elemRefOrSelect(s Value, sl *types.Slice, idx string, st *State) 
 	if x.exploded(sl.Elem()) {
 		return x.elemRef(app("sbase", s.Term), idx)
 	}
-	es := x.TM.Sort(sl.Elem())
+	es := x.TM.Key(sl.Elem())
 	return Select(Select(x.elemArr(st, es), app("sbase", s.Term)), idx)
 }
 
@@ -1224,4 +1246,34 @@ func (st *State) lastCall(name string) *CallRec {
 		}
 	}
 	return nil
+}
+
+// callKey canonicalises a logged-callee name used in contracts to the key used in State.Calls.
+func (x *Exec) callKey(st *State, name string) string {
+	if _, ok := st.Calls[name]; ok {
+		return name
+	}
+	for k := range st.Calls {
+		if strings.HasSuffix(k, "."+name) {
+			return k
+		}
+	}
+	// find a logged contract whose last name matches
+	for full, fc := range x.P.Externs {
+		if fc.Logged {
+			ln := lastName(full)
+			if ln == name || strings.HasSuffix(ln, "."+name) {
+				return ln
+			}
+		}
+	}
+	for full, fc := range x.P.Contracts {
+		if fc.Logged {
+			ln := lastName(strings.ReplaceAll(full, x.P.ModPath+"/", ""))
+			if ln == name || strings.HasSuffix(ln, "."+name) {
+				return ln
+			}
+		}
+	}
+	return name
 }
